@@ -213,7 +213,7 @@ fn hashes_agree(k: &[u8], n: u64) -> bool {
     k.hash(&mut h2);
     h1.finish() % n == h2.finish() % n
 }
-/// five short keys on which hash_key(&str) and hash_key_bytes(&[u8]) pick the same one of 4 shards
+/// four short keys on which hash_key(&str) and hash_key_bytes(&[u8]) pick the same one of 4 shards
 /// (DESIGN section 4 row 1 is C03's defect): fast-path SET and every other command then agree on the shard
 fn key_alphabet() -> Vec<Vec<u8>> {
     let mut keys = Vec::new();
@@ -221,7 +221,7 @@ fn key_alphabet() -> Vec<Vec<u8>> {
         let k = format!("k{}", c).into_bytes();
         if hashes_agree(&k, 4) {
             keys.push(k);
-            if keys.len() == 5 {
+            if keys.len() == 4 {
                 break;
             }
         }
@@ -357,11 +357,6 @@ fn gen_scenario(keys: &[Vec<u8>], rng: &mut Rng, out: &mut Out) -> Scenario {
             wr(&mut steps, rng, out);
         }
         steps.push((0, enc(&[b"MULTI"]), Role::Multi, "multi".into()));
-        for i in 0..nk {
-            for (j, p) in probes(&keys[i]).into_iter().enumerate() {
-                steps.push((1, p, Role::DumpBefore(i, j), "dump".into()));
-            }
-        }
         // body
         let nb = rng.gen_range(0..6);
         for _ in 0..nb {
@@ -451,7 +446,7 @@ fn main() {
             Ran::Ok(r) => r,
             other => {
                 out.violation(i, "the connection handler panicked or hung during a transaction scenario", json!({"result": format!("{:?}", other), "steps": descr(&[])}));
-                let term = format!("(KTx {} {} {})", clist(sc.steps.iter(), |s| format!("({}, {})", cbool(s.0 == 0), chex(&s.1))), "[]", "true");
+                let term = "(KTx [] [] [] true)".to_string();
                 out.case(i, term, false, "");
                 continue;
             }
@@ -626,7 +621,20 @@ fn main() {
             }
             other => out.violation(i, "the twin run panicked or hung", json!({"result": format!("{:?}", other)})),
         }
-        let term = format!("(KTx {} {} false)", clist(sc.steps.iter(), |s| format!("({}, {})", cbool(s.0 == 0), chex(&s.1))), clist(replies.iter(), |r| chex(r)));
+        // every distinct byte string once, steps and replies refer to it by index
+        let mut tbl: Vec<Vec<u8>> = Vec::new();
+        let mut idx: std::collections::HashMap<Vec<u8>, usize> = Default::default();
+        let mut ix = |b: &Vec<u8>, tbl: &mut Vec<Vec<u8>>| -> usize {
+            if let Some(&n) = idx.get(b) {
+                return n;
+            }
+            tbl.push(b.clone());
+            idx.insert(b.clone(), tbl.len() - 1);
+            tbl.len() - 1
+        };
+        let step_ix: Vec<(bool, usize)> = sc.steps.iter().map(|s| (s.0 == 0, ix(&s.1, &mut tbl))).collect();
+        let reply_ix: Vec<usize> = replies.iter().map(|r| ix(r, &mut tbl)).collect();
+        let term = format!("(KTx {} {} {} false)", clist(tbl.iter(), |b| chex(b)), clist(step_ix.iter(), |s| format!("({}, {})", cbool(s.0), s.1)), clist(reply_ix.iter(), |r| r.to_string()));
         out.case(i, term, nontrivial, &format!("{}{}", shards, sc.steps.iter().zip(replies.iter()).map(|(s, r)| format!("{}{}{}", s.0, hex(&s.1), hex(r))).collect::<String>()));
         out.sample(json!({"shards": shards, "outcomes": exec_kinds, "steps": descr(&replies)}));
         if args.only.is_some() {
